@@ -29,11 +29,17 @@ class Baton:
         prefix = self.prefix
 
         def local(frame, event, arg):
+            if self.steps > self.max_steps:
+                # step cap reached: stop tracing (the remaining work runs un-pre-empted)
+                frame.f_trace_opcodes = False
+                return None
             if event == "line" or event == "opcode":
                 self._preempt(me)
             return local
 
         def g(frame, event, arg):
+            if self.steps > self.max_steps:
+                return None
             if event == "call" and frame.f_code.co_filename.startswith(prefix):
                 if self.opcode:
                     frame.f_trace_opcodes = True
@@ -77,7 +83,7 @@ class Baton:
             else:
                 self.main.release()
 
-    def run(self, fns, join_timeout=45):
+    def run(self, fns, join_timeout=60):
         n = len(fns)
         self.sems = [threading.Semaphore(0) for _ in range(n)]
         self.done = [False] * n
@@ -87,7 +93,20 @@ class Baton:
             t.start()
         first = self.rng.randrange(n)
         self.sems[first].release()
-        ok = self.main.acquire(timeout=join_timeout)
+        # Liveness is judged by PROGRESS, not by how long the run takes: the threads are
+        # declared stuck only when no pre-emption point at all was passed and no thread
+        # finished during `join_timeout` seconds (a thread blocked on a lock that a parked
+        # thread holds makes no trace events; a slow machine still makes some).
+        last = (-1, -1)
+        ok = False
+        while True:
+            if self.main.acquire(timeout=join_timeout):
+                ok = True
+                break
+            now = (self.steps, sum(self.done))
+            if now == last:
+                break
+            last = now
         for t in ths:
             t.join(timeout=1.0)
         return ok and all(self.done)
